@@ -38,6 +38,8 @@ def _load(name, alias):
 
 LANG = param("lang", "C")
 WHICH = param("which", "isolation")
+FIX_N = param("fix_n", None)
+FIX_E1 = param("fix_e1", None)
 if WHICH == "isolation":
     soup = _load("soup.py", "vh_soup_for_c06")
     LANGUAGE = capture.language(LANG)
@@ -158,3 +160,72 @@ def h_add_order(code: int, v0: int, v1: int, v2: int) -> bool:
     a = _cb_sig(_cb([0, 1, 2], vals))
     b = _cb_sig(_cb(_perm_of(3, code), vals))
     return fin(a == b, code >= 1)
+
+
+# ----------------------------------------------------------------------------------------------- isolation at file level (Scanner._analyze_file after any history)
+EXTS = ["py", "js", "ts", "java", "c", "cpp", "cs"]
+TEXTS = [
+    "int outer(int a) {\n  int inner(int b) {\n    return b;\n  }\n  return inner(a);\n}\n",
+    "function area(w: number, h: number): number {\n  return w * h;\n}\n",
+    "def f(a):\n  return a\n\nx = 1\n",
+    "void g() {\n  x = 1;\n}\nclass A {\n  int m() {\n    return 1;\n  }\n}\n",
+]
+
+
+_SNAP = None
+
+
+@untraced
+def _analyze_history(hist):
+    """hist: list of (ext index, text index); the last element is the file under observation. Returns (result after the history, stand-alone analysis of the same file)."""
+    import hashlib
+    import codelimit.common.Scanner as scn
+    from pygments.lexers import get_lexer_for_filename
+    from codelimit.common.lexer_utils import lex
+    from codelimit.languages import Languages
+    from vlib import fsstub
+    from vlib.hx import StateSnapshot
+    global _SNAP
+    if _SNAP is None:
+        _SNAP = StateSnapshot()
+    _SNAP.restore()          # every path starts from the state of a fresh process
+    files = {}
+    for i, (e, t) in enumerate(hist):
+        files[f"/w/d{i}/file{i}.{EXTS[e]}"] = TEXTS[t]
+    fs = fsstub.FakeFS(files, cwd="/w")
+    saved = scn.__dict__.get("open")
+    scn.open = fs.open
+    try:
+        res = None
+        for i, (e, t) in enumerate(hist):
+            path = f"/w/d{i}/file{i}.{EXTS[e]}"
+            lexer = get_lexer_for_filename(path)
+            entry = scn._analyze_file(path, f"d{i}/file{i}.{EXTS[e]}", hashlib.md5(TEXTS[t].encode()).hexdigest(), lexer)
+            res = (entry.language, entry.loc, _sig(entry.measurements()))
+    finally:
+        if saved is None:
+            del scn.open
+        else:
+            scn.open = saved
+    e, t = hist[-1]
+    lexer = get_lexer_for_filename("x." + EXTS[e])
+    ms = scan_file(lex(lexer, TEXTS[t], False), Languages.by_name[lexer.__class__.name])
+    alone = (lexer.__class__.name, sum(m.value for m in ms), _sig(ms))
+    return res, alone
+
+
+def h_analyze_history(n: int, e1: int, t1: int, e2: int, t2: int, e3: int, t3: int) -> bool:
+    """
+    pre: 1 <= n <= 3 and (FIX_N is None or n == FIX_N) and (FIX_E1 is None or e1 == FIX_E1) and (n == 3 or (e3 == 0 and t3 == 0)) and (n >= 2 or (e2 == 0 and t2 == 0)) and all(0 <= e < len(EXTS) for e in [e1, e2, e3]) and all(0 <= t < len(TEXTS) for t in [t1, t2, t3])
+    post: _
+    """
+    hist = [(_real(e, len(EXTS)), _real(t, len(TEXTS))) for e, t in [(e1, t1), (e2, t2), (e3, t3)]][:_real(n - 1, 3) + 1]
+    res, alone = _analyze_history(hist)
+    return fin(res == alone, n == 3)
+
+
+def real_h_analyze_history(n, e1, t1, e2, t2, e3, t3):
+    hist = [(e1, t1), (e2, t2), (e3, t3)][:n]
+    f = _analyze_history.__wrapped__ if hasattr(_analyze_history, "__wrapped__") else _analyze_history
+    res, alone = f(hist)
+    return {"reproduced": res != alone, "sig": "file-isolation:result-depends-on-history", "detail": f"history {[(EXTS[e], t) for e, t in hist]}: after history {res}, alone {alone}"}
